@@ -2,6 +2,8 @@ SPECIFICATION SimSpec
 CONSTANTS
   WorkerCpus <- C_Workers
   WorkerGroup <- C_Groups
+  WorkerLife <- C_Life
+  MaxTicks = 0
   Menu <- C_Menu
   OpenJobs <- C_Open
   Classes <- C_Classes
